@@ -132,6 +132,44 @@ def run(ctx):
         if abs(s - want) > tol:
             ctx.violation(f"sample-independent predictions give {s}, expected {want}", "independence", {"config": cfg, "P": P.tolist(), "A": None if A is None else A.tolist()}, key=f"indep:{cfg}", how=how)
         ctx.compared("independence:" + cfg)
+    # many samples and many clusters (N x K x K intermediates no longer fit a cache line, a block, a chunk ...): the invariances and
+    # the definition must hold there as well; hard assignments handed over as integer / boolean arrays are the same predictions
+    for cls, ovo in [c for c in gl.CONFIGS if c[0] != "wass"]:
+        cfg = f"{cls}_{'ovo' if ovo else 'ova'}"
+        n, K = [(500, 12), (300, 16), (150, 30), (456, 12)][rs.randint(4)]
+        P = gl.gen_P(rs, n, K, "soft")
+        P = P[np.argsort(P.max(1))]
+        A = gl.gen_affinity(rs, n, "rbf") if cls == "mmd" else None
+        s0 = float(ev(cls, ovo, P, A, grad=False))
+        sg = rs.permutation(n)
+        s1 = float(ev(cls, ovo, P[sg], None if A is None else A[sg][:, sg], grad=False))
+        want = gl.spec_score(cls, ovo, P, A)
+        tol = 2e-6 * math.sqrt(max(1.0, float(np.abs(A).max()))) if cls == "mmd" else 1e-9
+        ctx.compared("large:" + cfg)
+        ctx.case(("large", cfg, n, K), True, None)
+        if not core.close(s0, s1, rtol=tol, atol=tol):
+            ctx.violation(f"n={n}, K={K}: the score changes from {s0} to {s1} when the samples are reordered", "sample-perm",
+                          {"config": cfg, "n": n, "K": K, "seed_note": "P = gen_P(soft) sorted by confidence"}, key=f"sample-perm-large:{cfg}", how=how)
+        if not core.close(s0, want, rtol=tol, atol=tol):
+            ctx.violation(f"n={n}, K={K}: score {s0} differs from the documented definition {want}", "score",
+                          {"config": cfg, "n": n, "K": K}, expected=want, actual=s0, key=f"score-large:{cfg}", how=how)
+        # hard assignments as integer / boolean arrays
+        m = int(rs.randint(2, 5)); Kh = int(rs.randint(2, 5))
+        lab = np.repeat(np.arange(Kh), m); rs.shuffle(lab)
+        H = np.zeros((Kh * m, Kh)); H[np.arange(Kh * m), lab] = 1.0
+        Ah = gl.gen_affinity(rs, Kh * m, "rbf") if cls == "mmd" else None
+        ref = float(ev(cls, ovo, H, Ah, grad=False))
+        for dt in (np.int64, np.int32, np.uint8, bool):
+            try:
+                got = float(ev(cls, ovo, H.astype(dt), Ah, grad=False))
+            except Exception as e:
+                ctx.violation(f"hard assignments given as a {np.dtype(dt).name} array: evaluate raised {type(e).__name__}: {e}", "closed",
+                              {"config": cfg, "P": H.tolist(), "dtype": np.dtype(dt).name}, key=f"dtype-raise:{cfg}", how=how)
+                continue
+            ctx.compared("dtype:" + cfg)
+            if not (np.isfinite(got) and core.close(got, ref, rtol=1e-9, atol=1e-9)):
+                ctx.violation(f"hard assignments given as a {np.dtype(dt).name} array score {got}, the same matrix in float64 scores {ref}", "closed",
+                              {"config": cfg, "P": H.tolist(), "dtype": np.dtype(dt).name}, expected=ref, actual=got, key=f"dtype:{cfg}", how=how)
     # MI of a balanced hard K-partition is log K
     import gemclus.gemini as G
     for K in (2, 3, 4, 5):
